@@ -195,7 +195,9 @@ func (c *conn) Send(ctx context.Context, onExit func()) {
 }
 
 func (c *conn) receive() (err error) {
-	var buffer [65507]byte
+	// larger than any datagram (65527 bytes over IPv6): a buffer of 65507 bytes let the kernel
+	// cut a longer one, and a header that declared the rest was taken for the whole
+	var buffer [65536]byte
 	var n int
 	switch n, err = c.Read(buffer[:]); {
 	case err != nil:
